@@ -73,6 +73,14 @@ pub fn first_line(s: &str) -> String {
     s.lines().next().unwrap_or("").to_string()
 }
 
+impl Drop for Host {
+    fn drop(&mut self) {
+        // exported functions refer to the exports map that holds them (a reference cycle under
+        // both memory strategies): empty the map so that the instance is actually freed
+        self.koto.exports_mut().clear();
+    }
+}
+
 impl Host {
     pub fn new(settings: HostSettings) -> Self {
         let stdout = SimFile::new("sim_stdout");
